@@ -146,7 +146,7 @@ func (g *gen) groupSpec(name string) dtypes.GroupSpec {
 		gs.Requirements.Attributes = g.attrs("grp.req")
 	}
 	auds := g.w.ActorsOf("auditor")
-	if len(auds) > 0 && r.Bool(35, "grp.signed") {
+	if len(auds) > 0 && r.Bool(35+g.bias["grp.signed"], "grp.signed") {
 		for _, a := range auds {
 			switch r.Choose(4, "grp.signedby") {
 			case 1:
